@@ -741,6 +741,12 @@ def serve_stage(ctx: vlib.Ctx, shape_flags: dict[str, bool] | None) -> None:
     rng = vlib.Rng(ctx.seed, "serve")
     faults = fault_steps(bool(shape_flags and shape_flags.get("args_validated")))
     nclose = sum(1 for k in faults if k.startswith("close@"))
+    if any(v.key.startswith("framing") for v in ctx.violations):
+        # the channel itself is already shown broken above (every request may wedge the daemon until the client
+        # times out): keep one scenario per fault class, drop the per-offset sweep
+        keep = {"close@0", "close@3", "close@4", f"close@{nclose - 1}"}
+        faults = {k: v for k, v in faults.items() if not k.startswith("close@") or k in keep}
+        ctx.cov["serve_reduced"] = "framing violations found: per-offset early-close sweep reduced to 4 offsets"
     names = list(faults)
     workers = max(2, min(10, vlib.NPROC - 4))
     fs = ForkServer()
